@@ -160,6 +160,21 @@ fn generate_e(seed: u64, quick: bool) -> Value {
         }
         let c = g.rng.upto(10);
         match c {
+            9 if g.rng.chance(1, 2) => {
+                if !g.rng.chance(1, 2) {
+                    count -= 1;
+                    continue;
+                }
+                // one displayed text with a line break in it and a long tail without one: every
+                // byte of it must arrive
+                let m1 = g.marker();
+                let m2 = g.marker();
+                let n = *g.rng.pick(&[200usize, 1023, 1024, 1500, 9000]);
+                let tail: String = (0..n).map(|i| (b'a' + (i % 17) as u8) as char).collect();
+                let literal = format!("head\n{}", tail);
+                items.push(json!({"forms": [format!("(display \"<<{}>>\")", m1), format!("(display \"head\\n{}\")", tail), format!("(display \"<<{}>>\")", m2)],
+                    "markers": [m1, m2], "kind": "display-long-text", "literal": literal}));
+            }
             9 => {
                 if !g.rng.chance(1, 4) {
                     count -= 1;
@@ -230,6 +245,7 @@ fn generate_e(seed: u64, quick: bool) -> Value {
     };
     let cwd = *g.rng.pick(&["progdir", "parent", "decoy", "root"]);
     let spelling = match cwd {
+        "progdir" if g.rng.chance(1, 10) => "through-missing-dir",
         "progdir" => *g.rng.pick(&["relative", "dot", "absolute", "dotdot"]),
         "parent" => *g.rng.pick(&["relative", "dot", "absolute", "dotdot"]),
         "decoy" => *g.rng.pick(&["relative", "absolute"]),
@@ -424,6 +440,8 @@ fn execute_e(case: Value) -> RunResult {
     let file = prog.join("main.scm");
     let mut text_bytes = program_text(&case).into_bytes();
     let file_fault = case["file_fault"].as_str().unwrap_or("none").to_string();
+    // a path through a directory that does not exist reaches no file, whatever lies beyond
+    let unreachable_path = case["spelling"].as_str() == Some("through-missing-dir") && case["cwd"].as_str() == Some("progdir");
     let cut = case["cut"].as_u64().unwrap_or(0) as usize;
     match file_fault.as_str() {
         "missing" => {}
@@ -444,6 +462,8 @@ fn execute_e(case: Value) -> RunResult {
         }
         _ => std::fs::write(&file, &text_bytes).unwrap(),
     }
+    // from here on the run is judged like a missing file (the file itself is in place)
+    let file_fault = if unreachable_path { "missing".to_string() } else { file_fault };
     let cwd: PathBuf = match case["cwd"].as_str().unwrap_or("progdir") {
         "progdir" => prog.clone(),
         "parent" => root.join("top"),
@@ -455,6 +475,8 @@ fn execute_e(case: Value) -> RunResult {
         ("progdir", "relative") => "main.scm".into(),
         ("progdir", "dot") => "./main.scm".into(),
         ("progdir", "dotdot") => "../prog/main.scm".into(),
+        // the operating system does not find a file through a directory that does not exist
+        ("progdir", "through-missing-dir") => "no-such-dir/../main.scm".into(),
         ("parent", "relative") => "prog/main.scm".into(),
         ("parent", "dot") => "./prog/main.scm".into(),
         ("parent", "dotdot") => "prog/../prog/main.scm".into(),
@@ -624,6 +646,26 @@ fn execute_e(case: Value) -> RunResult {
         if got_markers.len() > exp_markers.len() || got_markers[..n] != exp_markers[..n] {
             if file_fault != "truncated" || inproc.is_none() {
                 fail("stdout-not-a-prefix-of-the-program-output", json!({"expected_markers": exp_markers, "observed_markers": got_markers, "file_fault": file_fault}), &mut res);
+            }
+        }
+    }
+    if model_applies {
+        // texts displayed verbatim must arrive whole (only items before the failing one)
+        let out_text = String::from_utf8_lossy(&child.stdout).to_string();
+        for it in case["items"].as_array().cloned().unwrap_or_default() {
+            if it["fails"].as_bool().unwrap_or(false) {
+                break;
+            }
+            if let Some(lit) = it["literal"].as_str() {
+                // judged only where the program got past this item: both its markers are there
+                let ms: Vec<u32> = it["markers"].as_array().map(|a| a.iter().filter_map(|x| x.as_u64().map(|v| v as u32)).collect()).unwrap_or_default();
+                if !ms.iter().all(|m| got_markers.contains(m)) {
+                    continue;
+                }
+                if !out_text.contains(lit) {
+                    fail("displayed-text-incomplete", json!({"expected_length": lit.len(), "stdout_length": out_text.len()}), &mut res);
+                }
+                res.count("probe.long_text_displayed");
             }
         }
     }
